@@ -1,8 +1,6 @@
 import Gaftools.Props.C02
-import Gaftools.Props.TieA
 import Gaftools.Props.Glue
 import Gaftools.Props.Reflect
-#print axioms Gaftools.TieA.mergeNodes_gen_eq_model
 #print axioms Gaftools.C02.roundtrip_USU
 #print axioms Gaftools.C02.roundtrip_SUS
 #print axioms Gaftools.C02.reverseCigar_involutive
